@@ -1,10 +1,13 @@
 package main
 
 import (
+	stdbytes "bytes"
+	"github.com/hujm2023/go-sms-protocol/cmpp"
 	"github.com/hujm2023/go-sms-protocol/smgp"
 	"math/rand"
 	"reflect"
 	"strings"
+	"testing/iotest"
 )
 
 // Family "wire" (C01, C02, C11): every PDU type through the real IEncode /
@@ -178,6 +181,19 @@ func genWire(g *genCtx) {
 		for _, tn := range typeNames {
 			base := defaultAssign(r, tn, false)
 			rt(tn, base)
+			// fixed binary fields (digests, message ids) whose octets happen to be ASCII digits or hexadecimal letters
+			for _, alpha := range []string{"0123456789012345678901234567890123456789", "ABCDEFabcdef0123456789ABCDEFabcdef012345"} {
+				hx, any := cloneAssign(base), false
+				for _, f := range layouts[tn].Fields {
+					if (f.K == "FB" || f.K == "FH") && f.W <= len(alpha) {
+						hx[f.N] = fval{b: []byte(alpha[:f.W])}
+						any = true
+					}
+				}
+				if any {
+					rt(tn, hx)
+				}
+			}
 			if tf := tailField(tn); tf != "" {
 				// the text travelling in an optional parameter (message_payload and friends) with an empty body,
 				// and next to a body
@@ -481,6 +497,23 @@ func genRelay(g *genCtx, r *rand.Rand, emit func(Case)) {
 			}
 		}
 	}
+	// canonical images in which the text travels in an optional parameter: with an empty body (base assignment) and next to one
+	for _, tn := range typeNames {
+		tf := tailField(tn)
+		if tf == "" {
+			continue
+		}
+		for _, tag := range []int{0x0424, 0x0204, 0x001e, 1, 2} {
+			for _, full := range []bool{false, true} {
+				a := defaultAssign(r, tn, full)
+				a[tf] = fval{tlvs: []tlvVal{{tag, randBytes(r, 1+r.Intn(60))}}}
+				fixCounts(tn, a)
+				if img, err := build(tn, a).IEncode(); err == nil {
+					relay(tn, img)
+				}
+			}
+		}
+	}
 	// the far end of the scope: the largest destination counts with the longest bodies (whatever a decoder accepts
 	// must be encodable again)
 	for _, tn := range typeNames {
@@ -681,6 +714,34 @@ func runWire(c Case, tr *Tracer) {
 					}
 				}
 			}
+			// the same conformant image into an object that held another PDU of the type before: the same values
+			if e["decerr"] == false {
+				u := usedObjs["rt:"+tn]
+				if u == nil {
+					u = ctors[tn]()
+					usedObjs["rt:"+tn] = u
+				}
+				var uerr error
+				if guard(func() { uerr = u.IDecode(append([]byte{}, bytes...)) }) || uerr != nil {
+					e["usame"] = false
+					delete(usedObjs, "rt:"+tn)
+				} else {
+					e["usame"] = snapJSON(project(tn, u)) == snapJSON(e["p2"])
+				}
+				// the header through the stream entry point, the octets arriving one at a time
+				switch tn[:4] {
+				case "cmpp":
+					if tn != "cmpp.SubPduDeliveryContent" {
+						h1, e1 := cmpp.NewHeaderFromReader(iotest.OneByteReader(stdbytes.NewReader(append([]byte{}, bytes...))))
+						h2, e2 := cmpp.PeekHeader(bytes)
+						e["hdrok"] = e1 == nil && e2 == nil && h1 == h2
+					}
+				case "smgp":
+					h1, e1 := smgp.NewHeaderFromReader(iotest.OneByteReader(stdbytes.NewReader(append([]byte{}, bytes...))))
+					h2, e2 := smgp.PeekHeader(bytes)
+					e["hdrok"] = e1 == nil && e2 == nil && h1 == h2
+				}
+			}
 			// the caller goes on using the PDU it was given: it adds to its containers and overwrites its byte fields.
 			// Nothing of that may show in a PDU decoded later.
 			callerMutates(fresh)
@@ -719,6 +780,30 @@ func runWire(c Case, tr *Tracer) {
 				e["u"] = "encerr"
 			} else {
 				e["u"], e["b1u"] = "ok", B(bu)
+			}
+		}
+		// ... and through the dispatcher, the PDU kept while the next frame of the same command (another sequence number)
+		// is dispatched: what is re-encoded afterwards is still the first one
+		e["h"], e["b1h"] = "skip", []int{}
+		if err == nil && tn != "cmpp.SubPduDeliveryContent" {
+			if dt, dp := dispatchName(tn[:6], b0); dt == tn && dp != nil {
+				if hp, ok := dp.(codecPDU); ok {
+					sib := append([]byte{}, b0...)
+					so := map[string]int{"cmpp20": 11, "cmpp30": 11, "smgp30": 11, "smpp34": 15, "sgip12": 19}[tn[:6]]
+					if so < len(sib) {
+						sib[so] ^= 0x55
+						dispatchName(tn[:6], sib)
+						var bh []byte
+						var herr error
+						if guard(func() { bh, herr = hp.IEncode() }) {
+							e["h"] = "panic"
+						} else if herr != nil {
+							e["h"] = "encerr"
+						} else {
+							e["h"], e["b1h"] = "ok", B(bh)
+						}
+					}
+				}
 			}
 		}
 		if err == nil {
